@@ -625,6 +625,33 @@ impl World {
         g.cfg.lat_max = hi;
         g.fault = hook;
     }
+    /// Put a datagram with an arbitrary (spoofed) source address on the wire, delivered after
+    /// exactly `delay`. Bypasses the fault hook; NAT filtering at the destination still applies.
+    pub fn inject(&self, from: SocketAddrV4, bytes: &[u8], to: SocketAddrV4, delay: u64) {
+        let mut g = self.sh.lock();
+        let now = g.now;
+        let seq = g.next_seq;
+        g.next_seq += 1;
+        g.sends += 1;
+        let b = Arc::new(bytes.to_vec());
+        if g.trace_level == TraceLevel::Full {
+            g.trace.push(Ev::Send { t: now, seq, from, to, bytes: b.clone(), raw: true });
+        }
+        let Some(dest) = g.by_addr.get(&to).copied() else { return };
+        let k = g.next_seq;
+        g.next_seq += 1;
+        if let Some(ds) = g.socks.get_mut(&dest) {
+            if ds.crashed {
+                return;
+            }
+            if let Some(nat) = ds.nat.as_ref() {
+                if from == ds.addr || !nat.allowed.contains(&from) {
+                    return;
+                }
+            }
+            ds.q.insert((now + delay, k), Dgram { seq, from, to, bytes: b });
+        }
+    }
     pub fn raw_recv(&self, sock: SockId) -> Option<(u64, Dgram)> {
         self.sh.lock().socks.get_mut(&sock).and_then(|s| s.mailbox.pop_front())
     }
